@@ -177,6 +177,7 @@ class LoopSpec:
         self.modifies = []
         self.decreases = None
         self.lets = []
+        self.asserts = []   # proved, then assumed, at the end of every iteration (before the invariants)
 
 
 class Contract:
@@ -318,6 +319,8 @@ class ContractDB:
                     if curloop is None:
                         raise ParseError('%s:%d: invariant outside loop' % (path, ln))
                     curloop.invariants.append(c)
+                elif curloop is not None:
+                    curloop.asserts.append(c)
                 else:
                     cur.asserts.append(c)
                 last = c
